@@ -10,7 +10,7 @@ Everything in this file is about the Lean reader MODELS; the C++ is tied to them
 Memory safety of the models is by construction (they read through pattern matching on lists).  The GeoJSON reader
 is not modelled.
 
-Part 1 (namespace `C11.WKB`, by the C09 builder, extended here with the allocation upper bound):
+Part 1 (namespace `C11.WKB`, by the C09 builder, extended here with the allocation bound):
 Model: `GeosModel.WKB.read` (`Model/WKB/Read.lean`) — total by construction (structural recursion on a
 fuel argument that is the recursion-depth budget), reading only through pattern matching on the remaining
 byte list (so "no out-of-bounds read" is a typing fact of the model) — plus the allocation accounting of
@@ -20,16 +20,20 @@ valid, structure-mutated and random inputs, binary and HEX).
 Positive results (all byte strings, no hypothesis):
 * `reject_or_wf`, `readHex_reject_or_wf`  whatever is returned satisfies every constructor invariant;
 * `read_never_out_of_fuel`, `depth_le`     the recursion depth is at most `length / 5 + 1`;
-* `consumes_monotonically`                every successful nested read returns a suffix no longer than its input.
-Negative results (the property's "never overflows the stack" / "allocates at most a constant multiple of the
-input size" clauses are false of the model of the current code):
-* `depth_unbounded`     for every `d` an accepted input of `9 d + 21` bytes needs recursion depth `d + 1`;
-* `alloc_superlinear`   for every `d` an input of `9 d` bytes makes the reader request ≥ `4 d (d − 1)` bytes.
+* `consumes_monotonically`                every successful nested read returns a suffix no longer than its input;
+* `alloc_linear`                          **the reader allocates at most 4 bytes per input byte** (the property's "allocates
+  at most a constant multiple of the input size" clause, for the accounting of `Model/WKB/Resource.lean`: coordinate
+  sequences charged up front after their `minMemSize` guard, child vectors charged 16 bytes per child actually pushed).
+  With `alloc_linear_nested` (the same at every depth budget and byte order — no depth hypothesis), `alloc_le_consumed`
+  (a successful read is charged by the bytes it consumed, not by the buffer it was given), `alloc_linear_tight` /
+  `alloc_constant_optimal` (an accepted polygon with `k` empty holes, `13 + 4 k` bytes, is charged `16 k`: no constant
+  below 4 works) and `alloc_over_linear` (the family `wkbOver` on which the allocation was quadratic before /repo a208e3db7
+  — `std::vector<…>(count)` sized from the claimed element count at every nesting level — is now charged ≤ 4 bytes per
+  byte like everything else; `checks/C11.py` replays it on the C++ as a regression witness).
+Negative result (the property's "never overflows the stack" clause is false of the model of the current code):
+* `depth_unbounded`     for every `d` an accepted input of `9 d + 21` bytes needs recursion depth `d + 1`.
 Also: `empty_section_rejected`, `checkContig_nonempty`, `compound_sections_nonempty` — the former undefined behaviour in
 `CompoundCurve::validateConstruction` (fixed in /repo 82860eb92) is a clean reject and `front()/back()` only see non-empty sequences.
-Upper bounds matching the negative results: `alloc_le_depth` (a reader limited to `D` nested activations requests at most
-`4 D` bytes per input byte — with a depth limit the allocation clause would hold), `alloc_le_quadratic`, and
-`alloc_not_linear` (no constant `c` bounds allocation by `c ·` input length).
 
 Part 2 (namespace `C11.WKT`): the same for the WKT reader model — `wkt_read_never_out_of_fuel`, `wkt_depth_le`,
 `wkt_tokens_le_chars`, `tokenizer_fuel_irrelevant` (totality), `wkt_reject_or_wf`, `wkt_consumes`, and the negative
@@ -88,15 +92,6 @@ theorem not_depthBounded (arc : ArcOracle) (D : Nat) : ¬ DepthBounded arc D := 
   obtain ⟨bs, _, _, hf, _⟩ := depth_unbounded arc D
   exact h bs hf
 
-/-- **allocation is super-linear**: `d` nested collections, each claiming as many elements as `minMemSize`
-lets through (`remaining / 9`), 9 d bytes in all, make the reader request at least `4 d (d − 1)` bytes
-(before it fails with EOF for `d ≥ 3`). -/
-theorem alloc_superlinear (arc : ArcOracle) (d : Nat) (hd : d < 4294967296) :
-    ∃ bs : List UInt8, bs.length = 9 * d ∧ 4 * d * (d - 1) ≤ allocOf arc bs := by
-  refine ⟨over d, over_length d, ?_⟩
-  rw [← tri_eq]
-  exact allocGeom_over d _ .le (by rw [over_length]; omega) hd
-
 /-- a compound curve of two line-string sections, the first one empty (59 bytes) -/
 def ubInput : List UInt8 :=
   [1, 9, 0, 0, 0, 2, 0, 0, 0,
@@ -150,38 +145,56 @@ theorem compound_sections_nonempty (arc : ArcOracle) (gs : List G) (h : WFG arc 
     | error e => simp [hx, errOk] at h
   exact checkContig_nonempty gs hc h2
 
-/-- **allocation ≤ 4 · depth · length**: a reader restricted to `D` nested `readGeometry` activations (`readGeom arc D`
-rejects anything deeper) requests at most `4 D` bytes per input byte — linear for a fixed depth limit -/
-theorem alloc_le_depth (arc : ArcOracle) (D : Nat) (o : Order) (bs : List UInt8) :
-    allocGeom arc D o bs ≤ 4 * D * bs.length := allocGeom_le D o bs
+/-- **allocation is linear: at most 4 bytes per input byte**, for every byte string, with no hypothesis on the nesting
+depth.  (Coordinate sequences are allocated up front but only after `minMemSize` has compared their size with the
+remaining bytes: ≤ 2 bytes per available byte even when the read then fails; a child vector grows only by children that
+were read, each of which consumed at least its 5-byte header — 4-byte size word for polygon holes — which pays for its
+16-byte slot.) -/
+theorem alloc_linear (arc : ArcOracle) (bs : List UInt8) : allocOf arc bs ≤ 4 * bs.length :=
+  allocGeom_le (bs.length + 1) .le bs
 
-/-- the unlimited reader requests at most `4 (n + 1) n` bytes on `n` input bytes (quadratic; by `alloc_superlinear`
-the exponent cannot be improved) -/
-theorem alloc_le_quadratic (arc : ArcOracle) (bs : List UInt8) :
-    allocOf arc bs ≤ 4 * (bs.length + 1) * bs.length := allocGeom_le (bs.length + 1) .le bs
+/-- the same bound for every nested read: any depth budget `D` (so it does not rest on a depth limit), any byte order -/
+theorem alloc_linear_nested (arc : ArcOracle) (D : Nat) (o : Order) (bs : List UInt8) :
+    allocGeom arc D o bs ≤ 4 * bs.length := allocGeom_le D o bs
 
-/-- **no constant multiple of the input size bounds the allocation** (the property's resource clause is false of the
-model of the current code); the constant ranges over everything below 10⁹ because element counts are 32-bit -/
-theorem alloc_not_linear (arc : ArcOracle) (c : Nat) (hc : c < 1000000000) :
-    ∃ bs : List UInt8, c * bs.length < allocOf arc bs := by
-  obtain ⟨bs, hl, ha⟩ := alloc_superlinear arc (3 * c + 2) (by omega)
+/-- a successful (nested) read is charged at most 4 bytes per byte it *consumed* (less the 16 its parent pays for
+pushing it): trailing bytes, which `read` ignores, cost nothing -/
+theorem alloc_le_consumed (arc : ArcOracle) (D : Nat) (o o' : Order) (bs bs' : List UInt8) (r : G × Int)
+    (h : readGeom arc D o bs = .ok (r, o', bs')) : allocGeom arc D o bs + 16 + 4 * bs'.length ≤ 4 * bs.length :=
+  allocGeom_consumed D o o' bs bs' r h
+
+/-- **the constant 4 is attained** up to an additive constant: the polygon with an empty shell and `k` empty holes
+(`13 + 4 k` bytes) is accepted and charged `16 k = 4 · length − 52` (one slot per 4-byte hole) -/
+theorem alloc_linear_tight (arc : ArcOracle) (k : Nat) (hk : k + 1 < 4294967296) :
+    ∃ bs : List UInt8, bs.length = 13 + 4 * k ∧ (∃ g, read arc bs = .ok g) ∧ allocOf arc bs = 16 * k := by
+  refine ⟨polyHoles k, polyHoles_length k, ?_, allocGeom_polyHoles k _ .le hk⟩
+  have h := readGeom_polyHoles (arc := arc) k (polyHoles k).length .le hk
+  exact ⟨⟨0, .polygon ⟨false, false, []⟩ (List.replicate k ⟨false, false, []⟩)⟩, by simp [GeosModel.WKB.read, h]⟩
+
+/-- no constant below 4 bounds the allocation accounting by a multiple of the input length -/
+theorem alloc_constant_optimal (arc : ArcOracle) (c : Nat) (hc : c < 4) : ∃ bs : List UInt8, c * bs.length < allocOf arc bs := by
+  obtain ⟨bs, hl, _, ha⟩ := alloc_linear_tight arc 10 (by omega)
   refine ⟨bs, ?_⟩
-  rw [hl]
-  have h1 : c * (9 * (3 * c + 2)) = (3 * c + 2) * (9 * c) := by
-    rw [Nat.mul_comm c, Nat.mul_assoc, Nat.mul_comm (3 * c + 2) c, ← Nat.mul_assoc, Nat.mul_comm (9 * c)]
-  have h2 : 4 * (3 * c + 2) * (3 * c + 2 - 1) = (3 * c + 2) * (4 * (3 * c + 1)) := by
-    have : 3 * c + 2 - 1 = 3 * c + 1 := by omega
-    rw [this, Nat.mul_comm 4, Nat.mul_assoc]
-  have h3 : (3 * c + 2) * (9 * c) < (3 * c + 2) * (4 * (3 * c + 1)) :=
-    Nat.mul_lt_mul_of_pos_left (by omega) (by omega)
+  rw [hl, ha]
+  have : c * (13 + 4 * 10) ≤ 3 * (13 + 4 * 10) := Nat.mul_le_mul_right _ (by omega)
   omega
 
-/-- the harness' witness families are the witnesses of the two negative theorems -/
+/-- the harness' witness families are the Lean witnesses (`wkb-nest`: of `depth_unbounded`; `wkb-over`: the family on
+which the allocation was quadratic before /repo a208e3db7) -/
 theorem wkbOver_eq : ∀ k, Readers.wkbOver k = over k
   | 0 => rfl
   | k + 1 => by
     simp only [Readers.wkbOver, over, wkbOver_eq k]
     rfl
+
+/-- **regression witness**: `k` nested collections, each claiming as many elements as `minMemSize` lets through
+(`remaining / 9`), `9 k` bytes — on which the reader requested ≥ `4 k (k − 1)` bytes while child vectors were sized
+from the claimed count — are now charged at most `36 k` bytes -/
+theorem alloc_over_linear (arc : ArcOracle) (k : Nat) :
+    (Readers.wkbOver k).length = 9 * k ∧ allocOf arc (Readers.wkbOver k) ≤ 36 * k := by
+  have hl : (Readers.wkbOver k).length = 9 * k := by rw [wkbOver_eq, over_length]
+  have := alloc_linear arc (Readers.wkbOver k)
+  exact ⟨hl, by omega⟩
 
 theorem gHas_nest : ∀ d, gHasZ (nestG d) = false ∧ gHasM (nestG d) = false
   | 0 => by decide
@@ -199,10 +212,13 @@ theorem wkbNest_eq : ∀ d, Readers.wkbNest d = nestBytes d
     simp only [nestG, collection_bytes, hz.1, hz.2, Readers.wkbNest, ih]
     rfl
 
-/-! non-vacuity -/
+/-! non-vacuity: something is accepted; the accounting is not constantly 0 (up-front sequence of a truncated XYZM line
+string claiming 2 points: 64 bytes charged on 41; the old quadratic witness: two slots, whatever `k ≥ 3`) -/
 example : ∃ bs g, read (fun _ => false) bs = .ok g := by
   obtain ⟨bs, _, h, _⟩ := depth_unbounded (fun _ => false) 2
   exact ⟨bs, h⟩
+example : allocOf (fun _ => false) ([1, 2, 0, 0, 0xc0, 2, 0, 0, 0] ++ List.replicate 32 0) = 64 := by decide
+example : allocOf (fun _ => false) (Readers.wkbOver 3) = 32 ∧ allocOf (fun _ => false) (Readers.wkbOver 12) = 32 := by decide
 
 end GeosModel.C11.WKB
 
